@@ -156,13 +156,45 @@ impl Key {
 
     /// Gets the hash value for this key.
     pub fn get_hash(&self) -> u64 {
+        #[cfg(metrics_verif)]
+        verif_key_hook::point("load-flag");
         if self.hashed.load(Ordering::Acquire) {
+            #[cfg(metrics_verif)]
+            verif_key_hook::point("load-hash");
             self.hash.load(Ordering::Acquire)
         } else {
             let hash = generate_key_hash(&self.name, &self.labels);
+            #[cfg(metrics_verif)]
+            verif_key_hook::point("store-hash");
             self.hash.store(hash, Ordering::Release);
+            #[cfg(metrics_verif)]
+            verif_key_hook::point("store-flag");
             self.hashed.store(true, Ordering::Release);
             hash
+        }
+    }
+}
+
+/// Yield points of [`Key::get_hash`] for the verification harness: one before each atomic operation.
+///
+/// Compiled only with `--cfg metrics_verif`; without that flag nothing here exists.
+#[cfg(metrics_verif)]
+#[doc(hidden)]
+pub mod verif_key_hook {
+    use std::sync::RwLock;
+
+    static HOOK: RwLock<Option<fn(&'static str)>> = RwLock::new(None);
+
+    /// Installs, or removes, the function called at every yield point.
+    pub fn set(hook: Option<fn(&'static str)>) {
+        *HOOK.write().unwrap() = hook;
+    }
+
+    #[inline]
+    pub(crate) fn point(id: &'static str) {
+        let hook = *HOOK.read().unwrap();
+        if let Some(hook) = hook {
+            hook(id);
         }
     }
 }
